@@ -51,7 +51,44 @@ def job_shape(job):
         oracle_gen = [logt[c] for c in g]
         xs = [T.var('d%d' % i, 8) for i in range(blen)]
         block = I.mk(list(xs))
-        r = I.call_fn(f_div, [SliceRef(block, 0, blen), gen_ref])
+        try:
+            r = I.call_fn(f_div, [SliceRef(block, 0, blen), gen_ref])
+        except M.Unsupported as e:
+            # the executor cannot follow this code symbolically (e.g. a data-dependent slice bound).  Never "held": refute by
+            # a native differential against the oracle on structured and seed-chosen blocks, otherwise inconclusive.
+            native = OV.Native(extra['native'])
+            rnd0 = random.Random(seed * 31 + blen)
+            cands = [[0] * blen]
+            for k in (1, 2, 3, blen // 2, blen - 1):
+                if 0 < k < blen:
+                    cands.append([0] * k + [rnd0.randrange(1, 256) for _ in range(blen - k)])
+            for _ in range(20):
+                b_ = [rnd0.randrange(256) for _ in range(blen)]
+                b_[rnd0.randrange(blen)] = 0
+                cands.append(b_)
+            bad = None
+            for data in cands:
+                ans = native.ask('division %s %d %d' % (OV.hexs(data), v, l))
+                ref = iso.rs_remainder(data, ec)
+                if ans.startswith('PANIC') or ans == 'ABORT':
+                    bad = (data, 'division panics (%s)' % ans[:60])
+                    break
+                out = bytes.fromhex(ans)
+                nat = list(out[256 - len(gen):256 - len(gen) + ec])
+                if nat != ref:
+                    bad = (data, 'EC codewords are %s, the GF(256) remainder is %s' % (bytes(nat).hex(), bytes(ref).hex()))
+                    break
+            native.close()
+            res['validation']['cases'] += len(cands)
+            if bad is None:
+                raise Inconclusive('unsupported construct (%s); %d native blocks agree with the oracle' % (e, len(cands)))
+            res['failures'].append({'key': 'C07/remainder', 'confirmed': True,
+                                    'what': '%s for block %s of V%02d-%s [shape not executable symbolically: %s; found by native differential]' % (
+                                        bad[1], bytes(bad[0]).hex(), v + 1, level, str(e)[:70]),
+                                    'replay': {'request': 'division %s %d %d' % (OV.hexs(bad[0]), v, l), 'expect_ec': bytes(iso.rs_remainder(bad[0], ec)).hex()}})
+            res['obligations'] = ec
+            res['evaluations'] = ec
+            return res
         if r is M.DEAD:
             raise Inconclusive('division diverges on every path')
         got = list(r)[256 - len(gen):256 - len(gen) + ec] if len(r) >= 256 - len(gen) + ec else None
